@@ -173,10 +173,18 @@ let run_wal infile outfile oraclefile =
       let (line, r, r2) = observe si st files in
       Printf.fprintf oc "R %s %s\n" cid line;
       let written = match get_pristine did sihex si with Some (_, w) -> w | None -> [] in
-      Printf.fprintf oo "O %s kind=READ oracle=%s oracle2=%s nrec=%d\n" cid
+      (* ops-level oracle: a read from index 0 of a directory taken at a sync point (nops >= 0)
+         must be exactly what the script specifies (spec_run; theorem C16_spec_read_ok) *)
+      let d = Hashtbl.find dirs did in
+      let spec =
+        if d.nops >= 0 && sihex = "0" && sthex = "0" then begin
+          let w = Hashtbl.find wals d.dwid in
+          if spec_read_ok w.meta (take d.nops (List.rev w.ops)) r then "ok" else "BAD"
+        end else "na" in
+      Printf.fprintf oo "O %s kind=READ oracle=%s oracle2=%s nrec=%d spec=%s\n" cid
         (oracle_of si st written (List.length written) r)
         (match r2 with Some x -> oracle_of si st written 0 x | None -> "na")
-        (List.length written)
+        (List.length written) spec
     | ["K"; cid; did; sihex; sthex; nops] ->
       (* process-kill image taken when the nops-th operation returned: read it like any
          directory; the result must contain every completed save (completed_ok, theorem
